@@ -31,6 +31,10 @@ def judge_one(case, obs, res):
         res.inconclusive.append(f"executor failure: {str(obs)[:200]}")
         return None
     outs = {ch: outcome(o) for ch, o in obs["ch"].items()}
+    if str(case["meta"].get("textmut", "")).startswith("duplicate_member"):
+        # a JSON tree cannot represent a repeated member (building it keeps the last occurrence), so the tree
+        # channels see a different document: only the text channels are comparable here
+        outs = {ch: k for ch, k in outs.items() if ch not in ("value", "jdeser")}
     kinds = set(outs.values())
     t = case["type"]
     if "panic" in kinds:
@@ -43,7 +47,7 @@ def judge_one(case, obs, res):
         res.violate(f"channel-dependent-acceptance:{t}:{errclass(msg)}",
                     f"a {t} ({case['meta']['spelling']} spelling) is accepted by {oks} and rejected by {errs}: {msg[:160]}", case, obs, "one outcome")
         return ("mixed", None)
-    if kinds == {"ok"} and obs.get("all_eq") is not True:
+    if kinds == {"ok"} and obs.get("all_eq") is not True and not str(case["meta"].get("textmut", "")).startswith("duplicate_member"):
         res.violate(f"channel-dependent-value:{t}", f"channels decode a {t} to different values", case, obs, "equal values")
     if "ok" in kinds:
         return ("ok", json.dumps(obs["rt"]["val"], sort_keys=True))
@@ -88,12 +92,13 @@ def shard(binpath, seed, sh, n):
         if i % 3 == 0:
             # text-level variants around the document: each is judged on its own (one outcome over all channels)
             base = texts["plain"]
-            k = rng.randrange(12)
+            k = rng.randrange(14)
             tx, how = {
                 0: (base + "]", "trailing_bracket"), 1: (base + " x", "trailing_garbage"), 2: (base + base, "two_documents"),
                 3: (base + " \n\t\r\n", "trailing_whitespace"), 4: (base + ",", "trailing_comma"), 5: (base + "\x00", "trailing_nul"),
                 6: (" \n" + base, "leading_whitespace"), 7: ("\ufeff" + base, "leading_bom"), 8: (base[:max(1, len(base) - rng.randrange(1, 4))], "truncated"),
                 9: (base + "}", "trailing_brace"), 10: (base + " null", "trailing_value"), 11: (base + "//c", "trailing_comment"),
+                12: dup_member(base, d, False), 13: dup_member(base, d, True),
             }[k]
             groups.append([len(cases)])
             cases.append({"op": "serde", "type": t, "text": tx, "meta": {"spelling": "text:" + how, "valid": False, "textmut": how}})
@@ -132,6 +137,19 @@ def shard(binpath, seed, sh, n):
     return res
 
 
+def dup_member(base, d, escaped):
+    """the document with its first member repeated at the end (optionally with the repeated name spelled with an escape)"""
+    if not isinstance(d, dict) or not d or not base.endswith("}"):
+        return (base + base, "two_documents")
+    k = next(iter(d))
+    name = json.dumps(k)
+    if escaped and k:
+        name = '"\\u%04x' % ord(k[0]) + json.dumps(k[1:])[1:]
+        if ord(k[0]) > 0xFFFF:
+            name = json.dumps(k)
+    return (base[:-1] + "," + name + ":" + json.dumps(d[k], ensure_ascii=False) + "}", "duplicate_member" + ("_escaped" if escaped else ""))
+
+
 def has_float(d):
     if isinstance(d, float):
         return True
@@ -156,5 +174,6 @@ def main(ctx):
         assumptions=["serde_json::Value parsing defines 'the same content' for a spelling"],
         required=[f"all_channels_agree_ok:{t}" for t in ("metablock", "layout", "link", "pubkey", "rule", "step", "inspection", "statement", "predicate")] +
                  ["contains_rules:ok", "contains_timestamp:ok", "mutated:err", "text:trailing_bracket:err", "text:two_documents:err",
-                  "text:trailing_whitespace:ok", "text:leading_whitespace:ok", "text:truncated:err", "history:after_failed_read:ok"],
+                  "text:trailing_whitespace:ok", "text:leading_whitespace:ok", "text:truncated:err", "history:after_failed_read:ok",
+                  "text:duplicate_member:err"],
         min_evals=10000)
